@@ -17,6 +17,15 @@ CLAIMED = {
     },
 }
 
+CLAIMED["C17"] = {
+    "engine": "restart_sim",
+    "level": "fault_enumeration",
+    "text": "For every scene (every torch optimiser constructible with defaults x scheduler, MAP and ELBO losses, every MCMC operator/adaptor type, CLI-emitted mcmc/hmc/map/advi configurations) an uninterrupted run is recorded and then EVERY checkpoint the run writes is used once as the crash point (kill right after the checkpoint, restart through the real main() with -c, run to the end); seeded extras add kill-at-iteration, graceful SIGINT, faults inside a checkpoint write and chains of up to 4 restarts. Oracles: restart never fails; deep attribute snapshot at checkpoint == snapshot at run() entry after restart; resumed trajectory == uninterrupted trajectory position by position, bit-exact, and same number of steps.",
+    "note": "Trusted: position-keyed re-seeding makes stochastic runs comparable; the snapshot walk (sim/refstate.py) reaches every attribute of the algorithm, operators, adaptors, optimiser and scheduler except an explicit exclusion list (saved_tensors, _epoch, loggers, convergence, listeners). The scene swarm samples configurations; it does not enumerate them.",
+    "technique": "deterministic simulation: crash/restart of whole-program incarnations over an in-memory fs, every checkpoint enumerated as crash point, reference = uninterrupted run",
+    "design_ref": "DESIGN.md section 3 (C17)",
+}
+
 NOT_APPLICABLE = {
     "C01": "pure function of (tree, branch lengths, model, alignment): no schedule, clock, fault, crash point or history for a simulator to own",
     "C02": "metamorphic relation between two encodings of the same input; no state, schedule or fault involved",
@@ -40,7 +49,6 @@ PENDING = {
     "C03": "history clause is a simulation target (DESIGN.md); check under construction, not yet registered",
     "C11": "simulation target (DESIGN.md); check under construction, not yet registered",
     "C15": "simulation target (DESIGN.md); check under construction, not yet registered",
-    "C17": "simulation target (DESIGN.md); check under construction, not yet registered",
 }
 
 
